@@ -33,6 +33,8 @@ class Cache:
     #
     # str _build_name - The name of the build, as in the build_name argument to
     #     FileBuilder.build.
+    # list<str> _built_files - The non-norm-cased filenames of the files passed
+    #     to start_building_file, in order. Guarded by _files_lock.
     # set<str> _created_dirs - The non-norm-cased filenames of the directories
     #     this build has virtually created. This information need not be
     #     current; at present, FileBuilder doesn't set this until after we
@@ -102,6 +104,7 @@ class Cache:
             self._subbuilds_lock = null_context
             self._created_dirs_lock = null_context
 
+        self._built_files = []
         self._norm_cased_files = {}
         for filename, operation in files.items():
             self._norm_cased_files[os.path.normcase(filename)] = operation
@@ -188,6 +191,7 @@ class Cache:
                 norm_cased_filename, filename)
             self._files[filename] = None
             self._norm_cased_files[norm_cased_filename] = None
+            self._built_files.append(filename)
 
     def finish_building_file(self, operation):
         """Record the result of building the specified file.
@@ -270,6 +274,16 @@ class Cache:
                 if operation is not None and not operation.raised:
                     created_files.append(filename)
         return created_files
+
+    def built_files(self):
+        """Return the files we have started building.
+
+        This is a list of the non-norm-cased filenames of all of the
+        files passed to ``start_building_file``. It does not include
+        files for which we reused a previously cached result.
+        """
+        with self._files_lock:
+            return list(self._built_files)
 
     def get_subbuild(self, subbuild_key):
         """Return the operation associated with the specified subbuild key.
